@@ -305,7 +305,7 @@ def _havoc_heap_for_loop(engine, st, spec, body=None):
     for name in names:
         a = st.arr(name)
         new = fresh("LH_" + name.strip("$"), a.sort())
-        for p in sorted(st.private):
+        for p in sorted(st.private | st.frozen):
             new = z3.Store(new, z3.IntVal(p), z3.Select(a, z3.IntVal(p)))
         st.heap[name] = new
     new_f = tuple(st.arr(n) for n in FUT_ARRAYS)
